@@ -94,6 +94,9 @@ fn main() {
     let known = load_known(&verif_dir);
     let ctx = Ctx { prop: prop.clone(), tier, seed, profile: profile.clone(), verif_dir: verif_dir.clone(), scale, known };
 
+    if tier == Tier::Thorough {
+        set_distinct_cap(40_000_000);
+    }
     install_panic_hook();
     let replay_case: Option<J> = match &replay {
         Some(p) => {
